@@ -26,9 +26,11 @@ PROP = dict(
                    'unmapped; flushes temp, temp, page; or the handler panics because the allocator ran out. otherwise_panics: if the '
                    'handler returns at all the leaf was present, read-only and CoW, a frame was available and the temporary mapping '
                    'not refused. shared_zero_sequence: n pages sharing the zero frame faulted in any order get pairwise distinct '
-                   'all-zero frames and the shared frame stays all-zero. reserve_zeroed_frame (arming the guard establishes the invariants), gpf_panics, cow_present_exact, zero_guard_one_word, '
+                   'all-zero frames and the shared frame stays all-zero. reserve_zeroed_frame (arming the guard establishes the invariants), copyFrame_eq_memcopy + memcopy_copies (the frame copy IS '
+                   'kernel.Memcopy as written, which copies exactly size bytes - not an assumption), gpf_panics, cow_present_exact, zero_guard_one_word, '
                    'facts_current. The same clauses are evaluated by the oracle on the real code\'s memory after every fault.',
-        level_note='Proved for the model in all cases (hypotheses: tables form a tree, allocator frames fresh - Good, which holds at boot and '
+        level_note='kernel.Memcopy/Memset are modelled as written, verified (memcopy_copies; memset_fills in C04) and tied to the real functions '
+                   'by a differential run on guarded host buffers (oracle clause memcopy-copies). Proved for the model in all cases (hypotheses: tables form a tree, allocator frames fresh - Good, which holds at boot and '
                    'is preserved; frames < 2^40, flags outside bits 12-51, pages outside slot 511, fault not on the temporary page). '
                    'reserve_zeroed_frame proves that reserveZeroedFrame establishes these invariants. Trusted: Lean kernel '
                    '(+ propext, Classical.choice, Quot.sound), the theorem statements, the harness emulation of the MMU (the faulting '
